@@ -59,34 +59,26 @@ Qed.
 (** Go [int] is type 1 in the harness's list. *)
 Definition ty_int : nat := 1.
 
-Definition sops (fixed : bool) : atom_ops satom := {|
-  keyable := fun a => match a with SBytes _ => false | _ => true end;
-  aeqb := satom_eqb;
-  raw := fun a => match a with SBytes _ | SNamed _ => false | _ => true end;
-  cmp := fun a => match a with SBytes _ => false | _ => true end;
-  num := fun z => SNum ty_int (DInt z);
-  as_num := fun a => match a with SNum _ (DInt z) => Some z | _ => None end;
-  fix4 := fixed;
-  guide := None
-|}.
+(** Names of the Go numeric types, in the harness's order. *)
+Definition num_types : list string :=
+  ["int64"; "int"; "int32"; "int16"; "int8"; "uint"; "uint8"; "uint16"; "uint32"; "uint64"; "float32"; "float64"].
+Definition ty_name (t : nat) : string := nth t num_types "<?>".
 
-(** With patches/C03-fix-5 (keys compared by content) a [[]byte] scalar can be a key. *)
-Definition sops5 (fixed : bool) : atom_ops satom := {|
-  keyable := fun _ => true;
-  aeqb := satom_eqb;
-  raw := fun a => match a with SBytes _ | SNamed _ => false | _ => true end;
-  cmp := fun a => match a with SBytes _ => false | _ => true end;
-  num := fun z => SNum ty_int (DInt z);
-  as_num := fun a => match a with SNum _ (DInt z) => Some z | _ => None end;
-  fix4 := fixed;
-  guide := None
-|}.
+Definition smem (x : string) (l : list string) : bool := existsb (String.eqb x) l.
 
-Lemma sops5_laws fixed : atom_laws (sops5 fixed).
-Proof. constructor; [exact satom_eqb_eq | reflexivity | reflexivity]. Qed.
+(** The pass-through lists of diff.markReplaced and merge.mergeReplaced as they stand in the tree; the harness
+    extracts them from the sources (go/ast) on every run and hands them to the instances below. *)
+Definition default_passthrough : list string :=
+  ["bool"; "int"; "int8"; "int16"; "int32"; "int64"; "uint"; "uint8"; "uint16"; "uint32"; "uint64"; "float32"; "float64"; "string"].
 
-Lemma sops_laws fixed : atom_laws (sops fixed).
-Proof. constructor; [exact satom_eqb_eq | reflexivity | reflexivity]. Qed.
+Definition s_type (a : satom) : string :=
+  match a with
+  | SBool _ => "bool"
+  | SNum t _ => ty_name t
+  | SStr _ => "string"
+  | SBytes _ => "[]byte"
+  | SNamed _ => "<named>"
+  end.
 
 Inductive watom :=
 | WBool (b : bool)
@@ -109,35 +101,9 @@ Proof.
   - rewrite String.eqb_eq. split; congruence.
 Qed.
 
-Definition wops (fixed : bool) : atom_ops watom := {|
-  keyable := fun _ => true;
-  aeqb := watom_eqb;
-  raw := fun _ => true;
-  cmp := fun _ => true;
-  num := fun z => WNum (DInt z);
-  as_num := fun a => match a with WNum (DInt z) => Some z | _ => None end;
-  fix4 := fixed;
-  guide := None
-|}.
-
-Lemma wops_laws fixed : atom_laws (wops fixed).
-Proof. constructor; [exact watom_eqb_eq | reflexivity | reflexivity]. Qed.
-
-(** encoding/json on a leaf. *)
-Definition ser (a : satom) : watom :=
-  match a with
-  | SBool b => WBool b
-  | SNum _ q => WNum q
-  | SStr s => WStr s
-  | SBytes b64 => WStr b64
-  | SNamed s => WStr s
-  end.
-
-Lemma ser_hom5 f1 f2 : atom_hom (sops5 f1) (wops f2) ser.
-Proof. constructor; [reflexivity | intros [b|ty [z|m k]|s|s|s]; reflexivity]. Qed.
-
-Lemma ser_hom f1 f2 : atom_hom (sops f1) (wops f2) ser.
-Proof. constructor; [reflexivity | intros [b|t [z|m k]|s|s|s]; reflexivity]. Qed.
+(** the Go type encoding/json gives a leaf when it decodes into interface{} *)
+Definition w_type (a : watom) : string :=
+  match a with WBool _ => "bool" | WNum _ => "float64" | WStr _ => "string" end.
 
 (** * Following the implementation's index lists.
 
@@ -157,34 +123,123 @@ Fixpoint list_veqb (O : atom_ops satom) (a b : list (val satom)) : bool :=
   | _, _ => false
   end.
 
+(** only [aeqb] matters here: structural equality of Go-typed values *)
+Definition s_eq_ops : atom_ops satom := {|
+  aeqb := satom_eqb; raw := fun _ => true; cmp := fun a => match a with SBytes _ => false | _ => true end;
+  num := fun z => SNum ty_int (DInt z); as_num := fun _ => None; fix4 := false; keyable := fun _ => true; guide := None
+|}.
+
 Definition tlookup (t : table) (o n : list (val satom)) : option (list (option nat)) :=
-  match find (fun e => list_veqb (sops false) (fst (fst e)) o && list_veqb (sops false) (snd (fst e)) n) t with
+  match find (fun e => list_veqb s_eq_ops (fst (fst e)) o && list_veqb s_eq_ops (snd (fst e)) n) t with
   | Some e => Some (snd e)
   | None => None
   end.
 
-Definition sops_g (fixed : bool) (t : table) : atom_ops satom := {|
-  keyable := fun a => match a with SBytes _ => false | _ => true end;
+(** The server's domain: [dl] = the pass-through list of markReplaced, [fixed] = diffMap skips "__key" (fix-4),
+    [fixed5] = []byte keys are usable (fix-5), [t] = index lists to follow. *)
+Definition sopsL (dl : list string) (fixed fixed5 : bool) (t : table) : atom_ops satom := {|
   aeqb := satom_eqb;
-  raw := fun a => match a with SBytes _ | SNamed _ => false | _ => true end;
+  raw := fun a => smem (s_type a) dl || (match a with SBytes _ => smem "[]uint8" dl | _ => false end);
   cmp := fun a => match a with SBytes _ => false | _ => true end;
   num := fun z => SNum ty_int (DInt z);
   as_num := fun a => match a with SNum _ (DInt z) => Some z | _ => None end;
   fix4 := fixed;
+  keyable := fun a => fixed5 || match a with SBytes _ => false | _ => true end;
   guide := match t with [] => None | _ => Some (tlookup t) end
 |}.
 
-Lemma sops_g_laws fixed t : atom_laws (sops_g fixed t).
-Proof. constructor; [exact satom_eqb_eq | reflexivity | reflexivity]. Qed.
+(** The client's domain: [ml] = the pass-through list of mergeReplaced. *)
+Definition wopsL (ml : list string) (fixed : bool) : atom_ops watom := {|
+  aeqb := watom_eqb;
+  raw := fun a => smem (w_type a) ml;
+  cmp := fun _ => true;
+  num := fun z => WNum (DInt z);
+  as_num := fun a => match a with WNum (DInt z) => Some z | _ => None end;
+  fix4 := fixed;
+  keyable := fun _ => true;
+  guide := None
+|}.
 
-Lemma ser_hom_g f1 t f2 : atom_hom (sops_g f1 t) (wops f2) ser.
-Proof. constructor; [reflexivity | intros [b|ty [z|m k]|s|s|s]; reflexivity]. Qed.
+Definition sops (fixed : bool) : atom_ops satom := sopsL default_passthrough fixed false [].
+Definition sops5 (fixed : bool) : atom_ops satom := sopsL default_passthrough fixed true [].
+Definition sops_g (fixed : bool) (t : table) : atom_ops satom := sopsL default_passthrough fixed false t.
+Definition wops (fixed : bool) : atom_ops watom := wopsL default_passthrough fixed.
+
+Lemma sopsL_laws dl fixed fixed5 t : atom_laws (sopsL dl fixed fixed5 t).
+Proof. constructor; [exact satom_eqb_eq | reflexivity]. Qed.
+
+Lemma wopsL_laws ml fixed : atom_laws (wopsL ml fixed).
+Proof. constructor; [exact watom_eqb_eq | reflexivity]. Qed.
+
+Lemma sops_laws fixed : atom_laws (sops fixed).
+Proof. apply sopsL_laws. Qed.
+Lemma sops5_laws fixed : atom_laws (sops5 fixed).
+Proof. apply sopsL_laws. Qed.
+Lemma sops_g_laws fixed t : atom_laws (sops_g fixed t).
+Proof. apply sopsL_laws. Qed.
+Lemma wops_laws fixed : atom_laws (wops fixed).
+Proof. apply wopsL_laws. Qed.
+
+(** encoding/json on a leaf. *)
+Definition ser (a : satom) : watom :=
+  match a with
+  | SBool b => WBool b
+  | SNum _ q => WNum q
+  | SStr s => WStr s
+  | SBytes b64 => WStr b64
+  | SNamed s => WStr s
+  end.
+
+(** What the two pass-through lists must satisfy for [ser] to be a morphism (the premise of the serialisation
+    theorems): whatever markReplaced sends raw arrives as a leaf that mergeReplaced passes through. *)
+Definition json_type_of (go_type : string) : option string :=
+  if String.eqb go_type "bool" then Some "bool"
+  else if String.eqb go_type "string" then Some "string"
+  else if smem go_type num_types then Some "float64"
+  else if String.eqb go_type "[]byte" || String.eqb go_type "[]uint8" then Some "string"
+  else None.
+
+Definition lists_ok (dl ml : list string) : bool :=
+  forallb (fun t => match json_type_of t with Some k => smem k ml | None => true end) dl
+  && negb (smem "<?>" dl) && negb (smem "<named>" dl).
+
+Lemma smem_in x l : smem x l = true <-> In x l.
+Proof.
+  unfold smem. rewrite existsb_exists. split.
+  - intros [y [Hy He]]. apply String.eqb_eq in He. subst. exact Hy.
+  - intros H. exists x. split; [exact H | apply String.eqb_refl].
+Qed.
+
+Lemma ty_name_num_types t : ty_name t = "<?>" \/ smem (ty_name t) num_types = true.
+Proof.
+  unfold ty_name. destruct (Nat.lt_ge_cases t (List.length num_types)) as [Hlt|Hge].
+  - right. apply smem_in. apply nth_In. exact Hlt.
+  - left. apply nth_overflow. exact Hge.
+Qed.
+
+Lemma ser_homL dl ml f1 f5 t f2 : lists_ok dl ml = true -> atom_hom (sopsL dl f1 f5 t) (wopsL ml f2) ser.
+Proof.
+  intros Hok. unfold lists_ok in Hok. apply andb_prop in Hok as [Hok Hn]. apply andb_prop in Hok as [Hok Hq].
+  apply negb_true_iff in Hn. apply negb_true_iff in Hq. rewrite forallb_forall in Hok.
+  constructor; [|intros [b|ty [z|m k]|s|s|s]; reflexivity].
+  intros a. cbn [raw sopsL wopsL]. intros Hr. apply orb_true_iff in Hr as [Hr|Hr].
+  - pose proof Hr as Hin. apply smem_in in Hin. specialize (Hok _ Hin).
+    destruct a as [b|ty q|s|s|s]; cbn [s_type ser w_type] in *; try exact Hok.
+    + destruct (ty_name_num_types ty) as [E|E].
+      * rewrite E in Hr. congruence.
+      * unfold json_type_of in Hok.
+        destruct (String.eqb (ty_name ty) "bool") eqn:E1; [apply String.eqb_eq in E1; rewrite E1 in E; discriminate|].
+        destruct (String.eqb (ty_name ty) "string") eqn:E2; [apply String.eqb_eq in E2; rewrite E2 in E; discriminate|].
+        rewrite E in Hok. exact Hok.
+    + congruence.
+  - destruct a; try discriminate. apply smem_in in Hr. specialize (Hok _ Hr). exact Hok.
+Qed.
 
 Definition count_some (j : nat) (idx : list (option nat)) : nat :=
   List.length (filter (fun e => match e with Some j' => Nat.eqb j j' | None => false end) idx).
 
 Definition matching_ok (o n : list (val satom)) (idx : list (option nat)) : bool :=
-  let O := sops false in
+  let O := s_eq_ops in
   let ko := map (@vreorder_key _ O) o in
   Nat.eqb (List.length idx) (List.length n)
   && forallb (fun p => match p with
@@ -202,8 +257,10 @@ Definition matching_ok (o n : list (val satom)) (idx : list (option nat)) : bool
     [g_fixed]: what the harness's probe of diff.Diff found (is the "__key" pseudo-field ever diffed as a field?).
     [g_table]: index lists of the implementation that differ from the model's own choice (see above).
     Components 4-6: the delta after JSON, merge.Merge and merge.ts on it; 9: the implementation's index lists
-    are matchings as documented. *)
+    are matchings as documented; 10: the two pass-through lists satisfy the premise of the serialisation
+    theorems ([lists_ok], [ser_homL]). *)
 Record gcase := mk_gcase {
+  g_lists : list string * list string;   (* pass-through lists of markReplaced and mergeReplaced, from the sources *)
   g_fixed : bool;
   g_table : table;
   g_old : val satom; g_new : val satom;
@@ -213,10 +270,11 @@ Record gcase := mk_gcase {
 }.
 
 Definition gcheck_case (c : gcase) : list nat :=
-  let OS := sops_g (g_fixed c) (g_table c) in
-  let OW := wops (g_fixed c) in
+  let OS := sopsL (fst (g_lists c)) (g_fixed c) false (g_table c) in
+  let OW := wopsL (snd (g_lists c)) (g_fixed c) in
   let d := @VDiff _ OS (g_old c) (g_new c) in
   (if forallb (fun e => matching_ok (fst (fst e)) (snd (fst e)) (snd e)) (g_table c) then [] else [9]) ++
+  (if lists_ok (fst (g_lists c)) (snd (g_lists c)) then [] else [10]) ++
   (if @opt_veqb _ OW (option_map (fun x => vnorm (vmap ser x)) d) (g_delta c) then [] else [4]) ++
   match d with
   | None => []
@@ -239,13 +297,14 @@ Fixpoint gmismatches (_ : nat) (cs : list (nat * gcase)) : list (nat * list nat)
 (** Arbitrary (previous value, delta) pairs fed to both merges.  Components 7 (merge.Merge: value, or
     [None] for an error or a panic) and 8 (merge.ts, when the harness could compare it). *)
 Record fcase := mk_fcase {
+  f_ml : list string;
   f_prev : val watom; f_delta : val watom;
   f_go : option (val watom);
   f_js : option (val watom)
 }.
 
 Definition fcheck_case (c : fcase) : list nat :=
-  let OW := wops false in
+  let OW := wopsL (f_ml c) false in
   (if @opt_veqb _ OW (option_map vnorm (@VMerge _ OW (f_prev c) (f_delta c))) (f_go c) then [] else [7]) ++
   match f_js c with
   | None => []
